@@ -583,3 +583,4 @@ Proof.
       rewrite Em'. rewrite <- Ey, E1. cbn [app]. rewrite E2.
       repeat split. repeat (apply bytes_ok_cons; split; [assumption|]). assumption.
 Qed.
+
